@@ -605,3 +605,50 @@ type llRingRec struct {
 	obj *LLObj
 	m   *LLMap
 }
+
+// ---- glue for Go-harness stubs ----
+
+// PacketFromSlice turns a []byte value of the go/ssa interpreter into a packet object: the bytes from the slice's offset
+// to the end of its backing array become the buffer (capacity), the slice length becomes the packet length. The bytes
+// are copied (the BPF program does not write through to the Go slice; use SliceFromPacket for the result).
+func (in *Interp) PacketFromSlice(name string, s SliceV) *LLObj {
+	off := int(in.concretize(s.Off, "packet slice offset"))
+	if off > len(s.Arr) {
+		panic(unsupported("llir: packet slice offset beyond its backing array"))
+	}
+	o := &LLObj{Name: name, Len: s.N}
+	for _, v := range s.Arr[off:] {
+		t, ok := v.(*Term)
+		if !ok || t.W != 8 {
+			panic(unsupported("llir: packet slice does not hold bytes"))
+		}
+		o.Bytes = append(o.Bytes, t)
+	}
+	return o
+}
+
+// SliceFromPacket returns the packet contents (after a run) as a []byte value with a backing array of the packet's
+// capacity and the packet's (possibly symbolic) length.
+func (in *Interp) SliceFromPacket(p *LLObj) SliceV {
+	arr := make([]Value, len(p.Bytes))
+	for i, b := range p.Bytes {
+		if b == nil || b == llPtrByte {
+			panic(unsupported("llir: packet holds a non-integer byte"))
+		}
+		arr[i] = b
+	}
+	n := p.Len
+	if n == nil {
+		n = in.k64(int64(len(arr)))
+	}
+	return SliceV{Arr: arr, Off: in.k64(0), N: n, C: in.k64(int64(len(arr)))}
+}
+
+// NewMapEntry builds an entry from byte terms (helper for harness stubs that populate LLMap.Entries).
+func (in *Interp) NewMapEntry(m *LLMap, key, val []*Term) *LLMapEntry {
+	if len(key) != m.KeySize || len(val) != m.ValSize {
+		panic(unsupported(fmt.Sprintf("llir: entry for map %s needs %d key and %d value bytes", m.Name, m.KeySize, m.ValSize)))
+	}
+	m.nFresh++
+	return &LLMapEntry{Key: key, Val: &LLObj{Name: fmt.Sprintf("%s.value#%d", m.Name, m.nFresh), Bytes: val}}
+}
